@@ -1837,7 +1837,10 @@ func (f *formatter) writeStartMaybeCompact(node ast.Node, forceCompact bool) {
 			// a newline.
 			f.P("")
 		}
-	} else if !compact && nodeNewlineCount > 1 {
+	} else if !compact && nodeNewlineCount > 1 && f.lastWritten != 0 {
+		// If nothing has been written yet, this is the first token of the
+		// file, and blank lines in front of it are dropped.
+		//
 		// If the previous node is an open brace, this is the first element
 		// in the body of a composite type, so we don't want to write a
 		// newline. This makes it so that trailing newlines are removed.
@@ -2057,8 +2060,9 @@ func (f *formatter) writeMultilineCommentsMaybeCompact(comments ast.Comments, fo
 	compact := forceCompact || isOpenBrace(f.previousNode)
 	for i := range comments.Len() {
 		comment := comments.Index(i)
-		if !compact && newlineCount(comment.LeadingWhitespace()) > 1 {
-			// Newlines between blocks of comments should be preserved.
+		if !compact && newlineCount(comment.LeadingWhitespace()) > 1 && f.lastWritten != 0 {
+			// Newlines between blocks of comments should be preserved,
+			// except in front of the first comment of the file.
 			//
 			// For example,
 			//
